@@ -444,13 +444,16 @@ impl Srv {
 }
 
 /// Start one server of the given kind over `router`; returns its address. Servers live until process exit.
-pub fn start_server(rt: &tokio::runtime::Runtime, tr: Tr, router: Router) -> std::io::Result<SocketAddr> {
+/// `timeouts`: configure generous (60 s) read/write timeouts on the TCP servers. They never fire in these workloads, but
+/// they select the servers' timeout-wrapped read/write code paths, which must answer exactly like the plain ones.
+pub fn start_server(rt: &tokio::runtime::Runtime, tr: Tr, router: Router, timeouts: bool) -> std::io::Result<SocketAddr> {
+    let t = if timeouts { Some(std::time::Duration::from_secs(60)) } else { None };
     match tr {
         Tr::Tcp => {
             let l = std::net::TcpListener::bind("127.0.0.1:0")?;
             let addr = l.local_addr()?;
             std::thread::Builder::new().name("c03-server".into()).spawn(move || {
-                let _ = Server::new(router).serve(l);
+                let _ = Server::new(router).read_timeout(t).write_timeout(t).serve(l);
             })?;
             Ok(addr)
         }
@@ -458,7 +461,7 @@ pub fn start_server(rt: &tokio::runtime::Runtime, tr: Tr, router: Router) -> std
             let l = rt.block_on(tokio::net::TcpListener::bind("127.0.0.1:0"))?;
             let addr = l.local_addr()?;
             rt.spawn(async move {
-                let _ = AsyncServer::new(router).serve(l).await;
+                let _ = AsyncServer::new(router).read_timeout(t).write_timeout(t).serve(l).await;
             });
             Ok(addr)
         }
@@ -481,7 +484,8 @@ pub fn start_all(rt: &tokio::runtime::Runtime) -> std::io::Result<Vec<Srv>> {
     for mw in [false, true] {
         for tr in [Tr::Tcp, Tr::AsyncTcp, Tr::WsInline, Tr::WsOff] {
             let router = build_router(sid, tr == Tr::WsOff, mw);
-            let addr = start_server(rt, tr, router)?;
+            // the middleware family also runs the TCP servers with timeouts configured
+            let addr = start_server(rt, tr, router, mw)?;
             v.push(Srv { sid, tr, mw, addr });
             sid += 1;
         }
